@@ -11,7 +11,8 @@ variable {T : Prop} {Rs Rc Ps Pc : Id → Prop}
 /-! ### dropping local records -/
 
 def dropSvc (l : Local) (id : Id) : Local :=
-  { l with svcs := l.svcs.erase id, chks := l.chks.filterVis (pruneKeep id) }
+  { l with svcs := l.svcs.erase id, chks := l.chks.filterVis (pruneKeep id)
+           dfr := l.dfr.filter fun k => AMap.visKeep (pruneKeep id) l.chks k }
 
 theorem dropSvc_svcs (l : Local) (id i : Id) :
     (dropSvc l id).svcs.get? i = if id = i then none else l.svcs.get? i := by
@@ -94,7 +95,7 @@ theorem GInv_dropSvc {l : Local} {c : Cat} (id : Id) (hid : id ≠ "") (hl : liv
           have := g.nrb ht k d tok loc b rc hk (by rw [hsid]; exact hid) hck
           exact absurd (this.trans hsid) (hc2 k rc hck)
 
-def dropChk (l : Local) (k : Id) : Local := { l with chks := l.chks.erase k }
+def dropChk (l : Local) (k : Id) : Local := { (l.disarm k) with chks := l.chks.erase k }
 
 theorem GInv_dropChk {l : Local} {c : Cat} (k : Id) (hl : liveChk l k = none)
     (hc : c.chks.get? k = none) (g : GInv T Rs Rc Ps Pc l c) : GInv T Rs Rc Ps Pc (dropChk l k) c := by
@@ -292,6 +293,14 @@ theorem svcStep_GInv (cfg : Cfg) (f : Faults) (s : St) (id : Id)
   · rename_i d tok loc he; exact syncService_GInv cfg f id d tok loc s he hRs hRc g
   · exact g
 
+/-- everything `GInv` looks at -/
+theorem GInv_congr {l l' : Local} {c c' : Cat} (h1 : l'.svcs = l.svcs) (h2 : l'.chks = l.chks)
+    (h3 : c'.svcs = c.svcs) (h4 : c'.chks = c.chks) (g : GInv T Rs Rc Ps Pc l c) : GInv T Rs Rc Ps Pc l' c' := by
+  obtain ⟨a, b, x, y⟩ := l; obtain ⟨a', b', x', y'⟩ := l'
+  obtain ⟨n, y, z⟩ := c; obtain ⟨n', y', z'⟩ := c'
+  simp only at h1 h2 h3 h4; subst h1 h2 h3 h4
+  exact ⟨g.lwf, g.cwf, g.nek, g.nrb, g.snd, g.tgt⟩
+
 /-! ### check steps -/
 
 theorem syncCheck_GInv (cfg : Cfg) (f : Faults) (k : Id) (d : ChkDef) (tok : String) (loc : Bool) (s : St)
@@ -386,7 +395,8 @@ theorem chkStep_GInv (cfg : Cfg) (f : Faults) (s : St) (k : Id)
   · exact g
   · rename_i b he; exact deleteCheck_GInv f k s _ he rfl hRc g
   · rename_i d t lo b he; exact deleteCheck_GInv f k s _ he rfl hRc g
-  · rename_i d tok loc he; exact syncCheck_GInv cfg f k d tok loc s he hRc g
+  · rename_i d tok loc he
+    exact syncCheck_GInv cfg f k d tok loc { s with l := s.l.disarm k } he hRc (GInv_congr (l := s.l) (c := s.c) rfl rfl rfl rfl g)
   · exact g
 
 end CV.AE
